@@ -210,15 +210,17 @@ func absentPlan(target string, big bool) *plan {
 // only content-level decoding could tell); raw objects only when the reader
 // states the size.
 func consistentAlteration(p *plan, o *object, detectableV2 bool, sizeAlwaysKnown bool) *plan {
+	// A hit is acceptable only with exactly the object the backend holds
+	// (an implementation may legitimately ignore what it does not need).
 	switch {
 	case o.v2 && detectableV2:
-		return p.exp(expNoHit, expNoHit)
+		return p.exp(expAny, expAny)
 	case o.v2:
 		return p.exp(expLies, expLies)
 	case sizeAlwaysKnown:
-		return p.exp(expNoHit, expNoHit)
+		return p.exp(expAny, expAny)
 	default:
-		return p.exp(expNoHit, expLies)
+		return p.exp(expAny, expLies)
 	}
 }
 
@@ -255,7 +257,7 @@ func httpLikeGet(family string) []*entry {
 			}},
 			&entry{name: "short-error-chunked", build: func(rg *rig, o *object, rng *rand.Rand) *plan {
 				c := pickCutClass(o, rng)
-				p := base(stageOf(c), "short-error", c+"/chunked", "get", "deliver").exp(expNoHit, expNoHit)
+				p := base(stageOf(c), "short-error", c+"/chunked", "get", "deliver").exp(expAny, expAny)
 				p.cut, p.framing, p.end = cutPos(o, c, rng), "chunked", "abort"
 				return p
 			}},
@@ -279,7 +281,7 @@ func httpLikeGet(family string) []*entry {
 				return p
 			}},
 			&entry{name: "cl-larger", build: func(rg *rig, o *object, rng *rand.Rand) *plan {
-				p := base("size-metadata", "bad-cl", "larger", "get", "deliver").exp(expNoHit, expNoHit)
+				p := base("size-metadata", "bad-cl", "larger", "get", "deliver").exp(expAny, expAny)
 				p.framing, p.size, p.end = "cl-plus", int64(1+rng.IntN(100)), "abort"
 				return p
 			}},
@@ -326,7 +328,7 @@ func httpLikeGet(family string) []*entry {
 	es = append(es,
 		&entry{name: "short-error", build: func(rg *rig, o *object, rng *rand.Rand) *plan {
 			c := pickCutClass(o, rng)
-			p := base(stageOf(c), "short-error", c+"/cl-full", "get", "deliver").exp(expNoHit, expNoHit)
+			p := base(stageOf(c), "short-error", c+"/cl-full", "get", "deliver").exp(expAny, expAny)
 			p.cut, p.framing, p.end = cutPos(o, c, rng), "cl-full", "abort"
 			return p
 		}},
@@ -354,11 +356,11 @@ func corruptPlan(o *object, rng *rand.Rand, sizeAlwaysKnown bool) *plan {
 	p.corrupt = func(b []byte) []byte { return c.apply(o, b) }
 	switch {
 	case c.detectable:
-		p.exp(expNoHit, expNoHit)
+		p.exp(expAny, expAny)
 	case c.sizeLie && sizeAlwaysKnown:
-		p.exp(expNoHit, expNoHit)
+		p.exp(expAny, expAny)
 	case c.sizeLie:
-		p.exp(expNoHit, expLies)
+		p.exp(expAny, expLies)
 	default:
 		p.exp(expLies, expLies)
 	}
@@ -453,7 +455,7 @@ func grpcGet() []*entry {
 		}},
 		{name: "short-error", casOnly: true, build: func(rg *rig, o *object, rng *rand.Rand) *plan {
 			c := pickCutClass(o, rng)
-			p := base(stageOf(c), "short-error", c, "get", "deliver").exp(expNoHit, expNoHit)
+			p := base(stageOf(c), "short-error", c, "get", "deliver").exp(expAny, expAny)
 			p.cut, p.end = cutPos(o, c, rng), "abort"
 			p.code = []codes.Code{codes.Unavailable, codes.DataLoss, codes.Internal}[rng.IntN(3)]
 			p.msgSize = []int{0, 100, 4096}[rng.IntN(3)]
@@ -461,13 +463,13 @@ func grpcGet() []*entry {
 		}},
 		{name: "short-clean", casOnly: true, build: func(rg *rig, o *object, rng *rand.Rand) *plan {
 			c := pickCutClass(o, rng)
-			p := base(stageOf(c), "short-clean", c, "get", "deliver").exp(expNoHit, expNoHit)
+			p := base(stageOf(c), "short-clean", c, "get", "deliver").exp(expAny, expAny)
 			p.cut = cutPos(o, c, rng)
 			p.msgSize = []int{0, 100, 4096}[rng.IntN(3)]
 			return p
 		}},
 		{name: "long", casOnly: true, build: func(rg *rig, o *object, rng *rand.Rand) *plan {
-			p := base("after-last", "long", "", "get", "deliver").exp(expNoHit, expNoHit)
+			p := base("after-last", "long", "", "get", "deliver").exp(expAny, expAny)
 			p.extra = []int{1, 7, 100, 5000}[rng.IntN(4)]
 			return p
 		}},
@@ -479,7 +481,7 @@ func grpcGet() []*entry {
 		}},
 		{name: "fetch-wrong-size", casOnly: true, build: func(rg *rig, o *object, rng *rand.Rand) *plan {
 			// only the size-unknown path asks FetchBlob
-			p := base("size-metadata", "other-size", "fetchblob", "get", "fetch").exp(expHit, expNoHit)
+			p := base("size-metadata", "other-size", "fetchblob", "get", "fetch").exp(expHit, expAny)
 			p.size = o.size() + int64([]int{-1, 1, 1000}[rng.IntN(3)])
 			if p.size <= 0 {
 				p.size = o.size() + 1
@@ -545,23 +547,23 @@ func fakeGet() []*entry {
 		}},
 		{name: "short-error", build: func(rg *rig, o *object, rng *rand.Rand) *plan {
 			c := pickCutClass(o, rng)
-			p := base(stageOf(c), "short-error", c, "get", "deliver").exp(expNoHit, expNoHit)
+			p := base(stageOf(c), "short-error", c, "get", "deliver").exp(expAny, expAny)
 			p.cut, p.end = cutPos(o, c, rng), "abort"
 			return p
 		}},
 		{name: "short-clean", build: func(rg *rig, o *object, rng *rand.Rand) *plan {
 			c := pickCutClass(o, rng)
-			p := base(stageOf(c), "short-clean", c, "get", "deliver").exp(expNoHit, expNoHit)
+			p := base(stageOf(c), "short-clean", c, "get", "deliver").exp(expAny, expAny)
 			p.cut = cutPos(o, c, rng)
 			return p
 		}},
 		{name: "long", build: func(rg *rig, o *object, rng *rand.Rand) *plan {
-			p := base("after-last", "long", "", "get", "deliver").exp(expNoHit, expNoHit)
+			p := base("after-last", "long", "", "get", "deliver").exp(expAny, expAny)
 			p.extra = []int{1, 7, 100, 5000}[rng.IntN(4)]
 			return p
 		}},
 		{name: "size-lie", build: func(rg *rig, o *object, rng *rand.Rand) *plan {
-			p := base("size-metadata", "other-size", "", "get", "fetch").exp(expNoHit, expNoHit)
+			p := base("size-metadata", "other-size", "", "get", "fetch").exp(expAny, expAny)
 			p.size = o.size() + int64([]int{-1, 1, 1000}[rng.IntN(3)])
 			if p.size <= 0 {
 				p.size = o.size() + 1
@@ -627,7 +629,7 @@ func azGet() []*entry {
 		}},
 		{name: "short-error", build: func(rg *rig, o *object, rng *rand.Rand) *plan {
 			c := pickCutClass(o, rng)
-			p := base(stageOf(c), "short-error", c, "get", "deliver").exp(expNoHit, expNoHit)
+			p := base(stageOf(c), "short-error", c, "get", "deliver").exp(expAny, expAny)
 			p.cut, p.framing, p.end = cutPos(o, c, rng), "cl-full", "abort"
 			return p
 		}},
